@@ -881,6 +881,9 @@ impl TransactionBuilder {
                 )));
             }
             self.collateral_return = Some(return_output);
+        } else {
+            // nothing is left to return: a return output from an earlier call must not survive
+            self.collateral_return = None;
         }
         self.set_total_collateral(total_collateral);
 
